@@ -1,0 +1,56 @@
+//go:build verif
+
+// Contracts for govc (contract-based deductive verification); comment-only, compiled only with -tags verif.
+package types
+
+//@ func getBlockMinusOne
+//@   props C17
+//@   ensures result == ite(fromBlock > 0, fromBlock - 1, 0)
+
+//@ func (b BlockRange) CountBlocks
+//@   props C17
+//@   requires b.ToBlock - b.FromBlock + 1 < 18446744073709551616
+//@   ensures[count] result == ite(b.FromBlock == 0 && b.ToBlock == 0, 0, ite(b.FromBlock > b.ToBlock, 0, b.ToBlock - b.FromBlock + 1))
+
+//@ func (b BlockRange) IsEmpty
+//@   props C17
+//@   requires b.ToBlock - b.FromBlock + 1 < 18446744073709551616
+//@   ensures[empty] result == ((b.FromBlock == 0 && b.ToBlock == 0) || b.FromBlock > b.ToBlock)
+
+//@ func (b BlockRange) Gap
+//@   props C17
+//@   requires b.FromBlock <= b.ToBlock && other.FromBlock <= other.ToBlock
+//@   ensures[touch] (b.ToBlock + 1 >= other.FromBlock && other.ToBlock + 1 >= b.FromBlock) ==> result.IsEmpty()
+//@   ensures[gap-right] b.ToBlock + 1 < other.FromBlock ==> result.FromBlock == b.ToBlock + 1 && result.ToBlock == other.FromBlock - 1
+//@   ensures[gap-left] other.ToBlock + 1 < b.FromBlock ==> result.FromBlock == other.ToBlock + 1 && result.ToBlock == b.FromBlock - 1
+
+// ---- sub-range filter (C17): counting-function specification of an order-preserving filter
+
+//@ spec fn keepBlk(bn int, f int, t int) bool = bn >= f && bn <= t
+//@ spec fn cntB(s []bridgesync.Bridge, f int, t int, k int) int = ite(k <= 0, 0, cntB(s, f, t, k-1) + ite(keepBlk(s[k-1].BlockNum, f, t), 1, 0))
+//@ spec fn cntC(s []bridgesync.Claim, f int, t int, k int) int = ite(k <= 0, 0, cntC(s, f, t, k-1) + ite(keepBlk(s[k-1].BlockNum, f, t), 1, 0))
+
+//@ func (c *CertificateBuildParams) Range
+//@   props C17
+//@   requires c != nil
+//@   requires c.FromBlock <= c.ToBlock
+//@   ensures[reject] (fromBlock < c.FromBlock || toBlock > c.ToBlock || fromBlock > toBlock) ==> result1 != nil && result0 == nil
+//@   ensures[accept] !(fromBlock < c.FromBlock || toBlock > c.ToBlock || fromBlock > toBlock) ==> result1 == nil && result0 != nil
+//@   ensures[identity] (fromBlock == c.FromBlock && toBlock == c.ToBlock) ==> result0 == c
+//@   ensures[range] result1 == nil ==> result0.FromBlock == fromBlock && result0.ToBlock == toBlock
+//@   ensures[scalars] result1 == nil ==> result0.CreatedAt == old(c.CreatedAt) && result0.RetryCount == old(c.RetryCount) && result0.LastSentCertificate == old(c.LastSentCertificate) && result0.AggchainProof == old(c.AggchainProof) && result0.L1InfoTreeRootFromWhichToProve == old(c.L1InfoTreeRootFromWhichToProve) && result0.L1InfoTreeLeafCount == old(c.L1InfoTreeLeafCount) && result0.CertificateType == old(c.CertificateType)
+//@   ensures[bridges-count] (result1 == nil && result0 != c) ==> len(result0.Bridges) == cntB(old(seq(c.Bridges)), fromBlock, toBlock, old(len(c.Bridges)))
+//@   ensures[bridges-order] (result1 == nil && result0 != c) ==> forall(k, 0, old(len(c.Bridges)), keepBlk(old(c.Bridges[k]).BlockNum, fromBlock, toBlock) ==> cntB(old(seq(c.Bridges)), fromBlock, toBlock, k) < len(result0.Bridges) && result0.Bridges[cntB(old(seq(c.Bridges)), fromBlock, toBlock, k)] == old(c.Bridges[k]))
+//@   ensures[claims-count] (result1 == nil && result0 != c) ==> len(result0.Claims) == cntC(old(seq(c.Claims)), fromBlock, toBlock, old(len(c.Claims)))
+//@   ensures[claims-order] (result1 == nil && result0 != c) ==> forall(k, 0, old(len(c.Claims)), keepBlk(old(c.Claims[k]).BlockNum, fromBlock, toBlock) ==> cntC(old(seq(c.Claims)), fromBlock, toBlock, k) < len(result0.Claims) && result0.Claims[cntC(old(seq(c.Claims)), fromBlock, toBlock, k)] == old(c.Claims[k]))
+//@   ensures[input-unchanged] c.FromBlock == old(c.FromBlock) && c.ToBlock == old(c.ToBlock) && c.Bridges == old(c.Bridges) && c.Claims == old(c.Claims)
+//@   loop 0 invariant newCert != c && newCert != nil && fresh(newCert)
+//@   loop 0 invariant 0 <= rangeindex + 1 && rangeindex + 1 <= len(c.Bridges)
+//@   loop 0 invariant off(newCert.Bridges) == 0
+//@   loop 0 invariant len(newCert.Bridges) == cntB(seq(c.Bridges), fromBlock, toBlock, rangeindex + 1)
+//@   loop 0 invariant forall(k, 0, rangeindex + 1, keepBlk(c.Bridges[k].BlockNum, fromBlock, toBlock) ==> cntB(seq(c.Bridges), fromBlock, toBlock, k) < len(newCert.Bridges) && newCert.Bridges[cntB(seq(c.Bridges), fromBlock, toBlock, k)] == c.Bridges[k])
+//@   loop 1 invariant newCert != c && newCert != nil && fresh(newCert)
+//@   loop 1 invariant 0 <= rangeindex + 1 && rangeindex + 1 <= len(c.Claims)
+//@   loop 1 invariant off(newCert.Claims) == 0
+//@   loop 1 invariant len(newCert.Claims) == cntC(seq(c.Claims), fromBlock, toBlock, rangeindex + 1)
+//@   loop 1 invariant forall(k, 0, rangeindex + 1, keepBlk(c.Claims[k].BlockNum, fromBlock, toBlock) ==> cntC(seq(c.Claims), fromBlock, toBlock, k) < len(newCert.Claims) && newCert.Claims[cntC(seq(c.Claims), fromBlock, toBlock, k)] == c.Claims[k])
